@@ -4,7 +4,7 @@ statement-shaped observer (S); whole tapes played on the real pulse generator wi
 from props.tapecommon import *
 
 PID = "C11"
-KINDS = {"waveform", "wholetape", "ldbytes", "frozen"}
+KINDS = {"waveform", "wholetape", "ldbytes", "frozen", "taperr"}
 
 
 def mc_runs(quick):
